@@ -4,8 +4,7 @@
 def gen_addr(vc, name):
     """a socket address as the OS hands it to datagram_received: (host, port) for IPv4,
     (host, port, flowinfo, scope_id) for IPv6; the host text is opaque"""
-    host = vc.opaque(name + ".host", "host")
     port = vc.int(name + ".port", 0, 65535)
     if vc.choice(name + ".family", ("inet", "inet6")) == "inet":
-        return (host, port)
-    return (host, port, vc.int(name + ".flowinfo", 0, 0xFFFFF), vc.int(name + ".scope_id", 0, 0xFFFFFFFF))
+        return (vc.opaque(name + ".host", "host"), port)
+    return (vc.opaque(name + ".host", "host6"), port, vc.int(name + ".flowinfo", 0, 0xFFFFF), vc.int(name + ".scope_id", 0, 64))
